@@ -115,4 +115,177 @@ theorem div_mul_cancel' {a s : Rat} (hs : 0 < s) : a / s * s = a := by
 
 example (a b : Rat) : a - b + b = a := by grind
 
+/-! ### convertibility -/
+
+theorem convertP_ok_of_convOk {T : UnitSys} {s d : PintUnit} (v : Rat) (h : convOk T s d = true) :
+    ∃ r, convertP T v s d = .ok r := by
+  unfold convOk at h
+  unfold convertP
+  by_cases hc : s.canon = d.canon
+  · simp [hc]
+  · have hc' : (s.canon == d.canon) = false := by simpa using hc
+    simp only [hc', Bool.false_or, Bool.and_eq_true, beq_iff_eq] at h
+    obtain ⟨hd, hf⟩ := h
+    simp only [hc, if_false, hd, ne_eq, not_true_eq_false]
+    split at hf
+    · rename_i ho
+      simp only [ho]
+      cases hl : lookupFactor T s.canon d.canon with
+      | none => rw [hl] at hf; cases hf
+      | some f => exact ⟨_, rfl⟩
+    · rename_i ho
+      have ho' : (s.offs.isNone && d.offs.isNone) = false := by
+        cases hx : (s.offs.isNone && d.offs.isNone) with
+        | false => rfl
+        | true => exact absurd (by simpa using hx) ho
+      simp only [ho', Bool.false_eq_true, if_false]
+      cases hl : lookupFactor T s.ref d.ref with
+      | none => rw [hl] at hf; cases hf
+      | some f => exact ⟨_, rfl⟩
+
+theorem findRow_name {T : UnitSys} {u : String} {r : UnitRow} (h : findRow T u = some r) : r.name = u := by
+  have := List.find?_some h
+  simpa using this
+
+theorem Convertible_pair {T : UnitSys} (hC : T.Convertible = true) {ra rb : UnitRow}
+    (ha : ra ∈ T.rows) (hb : rb ∈ T.rows) (hq : ra.quantity = rb.quantity) (hn : ra.name ≠ rb.name) :
+    T.pintKeys.contains ra.quantity = true ∧ ∃ pa pb, ra.pint = some pa ∧ rb.pint = some pb ∧ convOk T pa pb = true := by
+  unfold UnitSys.Convertible at hC
+  have h1 := (List.all_eq_true.mp ((List.all_eq_true.mp hC) ra ha)) rb hb
+  have hq' : (ra.quantity == rb.quantity) = true := by simp [hq]
+  have hn' : (ra.name == rb.name) = false := by simpa using hn
+  simp only [hq', Bool.not_true, Bool.false_or, hn', Bool.and_eq_true] at h1
+  obtain ⟨hk, hm⟩ := h1
+  refine ⟨hk, ?_⟩
+  cases hpa : ra.pint with
+  | none => rw [hpa] at hm; cases hm
+  | some pa =>
+    cases hpb : rb.pint with
+    | none => rw [hpa, hpb] at hm; cases hm
+    | some pb => rw [hpa, hpb] at hm; exact ⟨pa, pb, rfl, rfl, hm⟩
+
+/-- two different comparable unit names are rows of one quantity -/
+theorem areComparable_true_rows {T : UnitSys} {a b : String} (hab : a ≠ b)
+    (h : areComparable T (some a) (some b) = .ok true) :
+    ∃ ra rb, findRow T a = some ra ∧ findRow T b = some rb ∧ ra.quantity = rb.quantity := by
+  unfold areComparable at h
+  have hab' : ¬ (some a = some b) := fun e => hab (Option.some.inj e)
+  simp only [hab', if_false] at h
+  cases hqa : quantityOf T a with
+  | error e => rw [hqa] at h; cases h
+  | ok qa =>
+    cases hqb : quantityOf T b with
+    | error e => rw [hqa, hqb] at h; cases h
+    | ok qb =>
+      rw [hqa, hqb] at h
+      simp only at h
+      obtain ⟨ra, hra, hqa'⟩ := quantityOf_ok hqa
+      obtain ⟨rb, hrb, hqb'⟩ := quantityOf_ok hqb
+      refine ⟨ra, rb, hra, hrb, ?_⟩
+      by_cases hq : qa = qb
+      · rw [hqa', hqb', hq]
+      · have : (qa != qb) = true := by simpa using hq
+        simp [this] at h
+
+theorem cmpNum_error {op : String} {x y : Rat} {e : Err} (h : cmpNum op x y = .error e) : e = .invalidOperator := by
+  unfold cmpNum at h
+  repeat' split at h
+  all_goals first | (cases h; rfl) | cases h
+
+theorem applyOp_error {op : String} {a b : Val} {e : Err} (h : applyOp op a b = .error e) : e.isValueError = true := by
+  cases a <;> cases b <;> simp only [applyOp] at h
+  · rw [cmpNum_error h]; rfl
+  · cases h; rfl
+  · cases h; rfl
+  · unfold cmpStr at h
+    repeat' split at h
+    all_goals first | (cases h; rfl) | cases h
+
+theorem bothNumeric_error {va vb : String} {e : Err} (h : bothNumeric va vb = .error e) : e.isValueError = true := by
+  unfold bothNumeric at h
+  repeat' split at h
+  all_goals first | (cases h; rfl) | cases h
+
+theorem plainOperands_error {o : Bool} {va vb : String} {e : Err} (h : plainOperands o va vb = .error e) :
+    e.isValueError = true := by
+  unfold plainOperands at h
+  split at h
+  · split at h
+    · rename_i e' he
+      cases h
+      exact bothNumeric_error he
+    · cases h
+  · repeat' split at h
+    all_goals first | (cases h; rfl) | cases h
+
+/-- Units that may be compared never make `compare_values` fail for a reason that has to do with units,
+    provided all units of one quantity are convertible (`T.Convertible`). -/
+theorem compareValues_comparable_error {T : UnitSys} (hC : T.Convertible = true) {op va vb : String}
+    {ua ub : Option String} {e : Err} (hc : areComparable T ua ub = .ok true)
+    (h : compareValues T op va ua vb ub = .error e) : e.isValueError = true := by
+  unfold compareValues at h
+  cases ho : operands T (isOrderOp op) va ua vb ub with
+  | ok p =>
+    rw [ho] at h
+    obtain ⟨a, b⟩ := p
+    exact applyOp_error h
+  | error e' =>
+    rw [ho] at h
+    cases h
+    unfold operands at ho
+    simp only [hc] at ho
+    -- is_pint
+    cases ua with
+    | none =>
+      simp only [isPint] at ho
+      exact plainOperands_error ho
+    | some a =>
+      by_cases hab : some a = ub
+      · simp only [isPint, hab, if_true] at ho
+        exact plainOperands_error ho
+      · cases ub with
+        | none => simp [areComparable] at hc
+        | some b =>
+          have hab' : a ≠ b := fun e => hab (by rw [e])
+          obtain ⟨ra, rb, hra, hrb, hq⟩ := areComparable_true_rows hab' hc
+          have hna : ra.name ≠ rb.name := by rw [findRow_name hra, findRow_name hrb]; exact hab'
+          obtain ⟨hk, pa, pb, hpa, hpb, _⟩ := Convertible_pair hC (findRow_mem hra) (findRow_mem hrb) hq hna
+          obtain ⟨_, pb', pa', hpb', hpa', hcv⟩ :=
+            Convertible_pair hC (findRow_mem hrb) (findRow_mem hra) hq.symm (fun e => hna e.symm)
+          rw [hpa] at hpa'; cases hpa'
+          rw [hpb] at hpb'; cases hpb'
+          simp only [isPint, hab, if_false, quantityOf, hra, hk, if_true] at ho
+          cases hb : bothNumeric va vb with
+          | error e2 => rw [hb] at ho; cases ho; exact bothNumeric_error hb
+          | ok xy =>
+            obtain ⟨x, y⟩ := xy
+            obtain ⟨y', hy'⟩ := convertP_ok_of_convOk y hcv
+            simp only [hb, pintUnit, hra, hrb, hpa, hpb, hy'] at ho
+            cases ho
+
+/-- With convertible units, numeric operands of comparable units always reach the comparison. -/
+theorem numOperands_ok {T : UnitSys} (hC : T.Convertible = true) (x y : Rat) {ua ub : Option String}
+    (hc : areComparable T ua ub = .ok true) : ∃ p, numOperands T x y ua ub = .ok p := by
+  unfold numOperands
+  simp only [hc]
+  cases ua with
+  | none => simp only [isPint]; exact ⟨_, rfl⟩
+  | some a =>
+    by_cases hab : some a = ub
+    · simp only [isPint, hab, if_true]; exact ⟨_, rfl⟩
+    · cases ub with
+      | none => simp [areComparable] at hc
+      | some b =>
+        have hab' : a ≠ b := fun e => hab (by rw [e])
+        obtain ⟨ra, rb, hra, hrb, hq⟩ := areComparable_true_rows hab' hc
+        have hna : ra.name ≠ rb.name := by rw [findRow_name hra, findRow_name hrb]; exact hab'
+        obtain ⟨hk, pa, pb, hpa, hpb, _⟩ := Convertible_pair hC (findRow_mem hra) (findRow_mem hrb) hq hna
+        obtain ⟨_, pb', pa', hpb', hpa', hcv⟩ :=
+          Convertible_pair hC (findRow_mem hrb) (findRow_mem hra) hq.symm (fun e => hna e.symm)
+        rw [hpa] at hpa'; cases hpa'
+        rw [hpb] at hpb'; cases hpb'
+        obtain ⟨y', hy'⟩ := convertP_ok_of_convOk y hcv
+        simp only [isPint, hab, if_false, quantityOf, hra, hk, if_true, pintUnit, hrb, hpa, hpb, hy']
+        exact ⟨_, rfl⟩
+
 end OPM.Units
